@@ -8,7 +8,7 @@ import AmaranthVerif.Spec.Engine
 ```
 (c08 CTX (inits INT*) (resetless 0|1*) (doms DOM*) (actual (proc DOM STMT)*) (leaves LEAF*)
      (user UPROC*) (clocks (SLOT PHASE PERIOD)*) (tbs (tb OP*)*) (run) | (until FS))
-UPROC = (ucomb (INS*) OUT EXPR) | (usync D (INS*) OUT EXPR)
+UPROC = (ucomb (INS*) OUT EXPR) | (usync D (INS*) OUT EXPR) | (usyncp D (INS*) OUT LO HI EXPR) | (ulate DELAY (INS*) OUT EXPR)
 OP    = (set TARGET INT) | (setfrom TARGET EXPR) | (get EXPR) | (tick D EXPR*) | (wait ELEM*)
 ELEM  = (edge SIG BIT 0|1) | (changed SIG) | (delay FS) | (sample EXPR)
 ```
@@ -47,6 +47,10 @@ def parseUser (ctx : Ctx) : Sexp → Option ProcKind
       some (.userComb (← nats? ins) (← toNat? o) (← parseExpr ctx e))
   | .list [.atom "usync", d, .list ins, o, e] => do
       some (.userSync (← toNat? d) (← nats? ins) (← toNat? o) (← parseExpr ctx e))
+  | .list [.atom "ulate", n, .list ins, o, e] => do
+      some (.userLateComb (← toNat? n) (← nats? ins) (← toNat? o) (← parseExpr ctx e))
+  | .list [.atom "usyncp", d, .list ins, o, lo, hi, e] => do
+      some (.userSyncPart (← toNat? d) (← nats? ins) (← toNat? o) (← toNat? lo) (← toNat? hi) (← parseExpr ctx e))
   | _ => none
 
 def showObs (os : List Obs) : String :=
